@@ -84,6 +84,12 @@ func NewNegotiator(cfg func(*Session, *StreamConfig) StreamConfig) Negotiator {
 type negotiatorState struct {
 	doRestart bool
 	cancelTee context.CancelFunc
+
+	// featuresRead is set once a features list has been read (or written) on
+	// this connection.
+	// It cannot be derived from whether any state was passed in: wrapping the
+	// connection in a teeConn also returns state before the first list is read.
+	featuresRead bool
 }
 
 func negotiator(f func(*Session, *StreamConfig) StreamConfig) Negotiator {
@@ -204,7 +210,9 @@ func negotiator(f func(*Session, *StreamConfig) StreamConfig) Negotiator {
 		}
 
 		cfg = f(s, &cfg)
-		mask, rw, err = negotiateFeatures(ctx, s, data == nil, websocket, cfg.Features)
+		first := !nState.featuresRead
+		nState.featuresRead = true
+		mask, rw, err = negotiateFeatures(ctx, s, first, websocket, cfg.Features)
 		nState.doRestart = rw != nil
 		return mask, rw, nState, err
 	}
